@@ -347,6 +347,11 @@ def go_test(pkg, inject, *, run="TestVerif", tags="verif", race=False, env=None,
     return p.returncode, out
 
 
+def out_dir():
+    """where evidence/ and replay/ go: /verif unless VERIF_OUT_DIR says otherwise (mutant sweeps)"""
+    return os.environ.get("VERIF_OUT_DIR", ROOT)
+
+
 def read_ndjson(path):
     out = []
     if not os.path.exists(path):
